@@ -544,3 +544,23 @@ def holds_under(ev, env):
         return True
     except Undecided:
         return None
+
+
+def deep_mentions(t, pred, loops, _seen=None):
+    """Like terms.mentions, but looks through loop variables: what they held before the loop and what the loop body leaves in them."""
+    seen = _seen if _seen is not None else set()
+    if T.mentions(t, pred):
+        return True
+    for a in T.atoms_of(t, "loopvar"):
+        if a in seen or a[1] not in loops:
+            continue
+        seen.add(a)
+        lp = loops[a[1]]
+        name = a[2]
+        for st in (lp.get("pre"), lp.get("body_end")):
+            if st is None:
+                continue
+            v = st.locs.get(name[1:]) if name.startswith("$") else st.attrs.get(name)
+            if v is not None and deep_mentions(v, pred, loops, seen):
+                return True
+    return False
